@@ -208,12 +208,40 @@ func resolveUnder(db shared.DBNodeMap, maxDepth int, entry string, plan OrderPla
 	}()
 	enterSUT()
 	defer leaveSUT()
-	if entry == "struct" {
-		err = resolver.NewResolver(db, resolver.Config{MaxDepth: maxDepth}).Resolve()
-	} else {
-		_, err = resolver.Resolve(resolver.Config{MaxDepth: maxDepth}, db)
+	call := func() {
+		if entry == "struct" {
+			err = resolver.NewResolver(db, resolver.Config{MaxDepth: maxDepth}).Resolve()
+		} else {
+			_, err = resolver.Resolve(resolver.Config{MaxDepth: maxDepth}, db)
+		}
 	}
-	return err, ""
+	if !libSched {
+		call()
+		return err, ""
+	}
+	// the library starts goroutines of its own: the call runs in a bubble under the cooperative
+	// scheduler, with a schedule derived from the book and the map-order plan
+	names := make([]string, 0, len(db))
+	for n := range db {
+		names = append(names, n)
+	}
+	sort.Strings(names)
+	h := verifsim.HashString(hashOf(names) + hashOf(plan) + entry + fmt.Sprint(maxDepth))
+	sched := make([]int, 12)
+	for i := range sched {
+		sched[i] = int((h >> (uint(i) * 5)) & 7)
+	}
+	if hang := underScheduler(sched, func() {
+		defer func() {
+			if r := recover(); r != nil {
+				panicked = fmt.Sprint(r)
+			}
+		}()
+		call()
+	}); hang != "" {
+		return nil, hang
+	}
+	return err, panicked
 }
 
 func allPerms(n int) [][]int {
@@ -271,6 +299,9 @@ type CaseC01 struct {
 	Prelude   string     `json:"prelude,omitempty"`
 	Only      *OrderPlan `json:"only,omitempty"`
 	OnlyEntry string     `json:"only_entry,omitempty"`
+	// Seq, when set, makes the case a recorded history of resolutions of one process, replayed in
+	// order in a fresh process and judged step by step against the reference model
+	Seq []LibStep `json:"seq,omitempty"`
 }
 
 func genC01(thorough bool) func(t *rapid.T) Case {
@@ -292,6 +323,9 @@ func genC01(thorough bool) func(t *rapid.T) Case {
 			if bo.DeepChain >= c.MaxDepth {
 				bo.DeepChain = c.MaxDepth - 1
 			}
+		}
+		if rapid.IntRange(0, 7).Draw(t, "wide") == 7 {
+			bo.MinRecipes, bo.MaxRecipes = 16, 40
 		}
 		c.Book = genBook(t, bo)
 		c.Layout = genLayout(t, "layout")
@@ -414,7 +448,49 @@ func snapshot(db shared.DBNodeMap) string {
 }
 
 // Eval resolves the book under every schedule and both entry points.
+func flakyC01() Case {
+	return &CaseC01{MaxDepth: 10, Seq: append([]LibStep{}, callLog...)}
+}
+
+func (c *CaseC01) evalSeq(ob *Obs) []Finding {
+	for i, st := range c.Seq {
+		db, err := parseBook(st.Text)
+		if err != nil {
+			continue
+		}
+		rerr, pan := resolveUnder(db, st.MaxDepth, st.Entry, st.Plan, ob)
+		if st.Book == nil {
+			continue
+		}
+		m := newRefModel(st.Book)
+		L := m.chainLen()
+		if L == -1 || L >= st.MaxDepth {
+			continue
+		}
+		for _, n := range m.order {
+			m.resolved(n)
+		}
+		ob.nontrivial(fmt.Sprintf("seq/%d/%s", i, hashOf(st)))
+		why := ""
+		switch {
+		case pan != "":
+			why = "panic: " + pan
+		case rerr != nil:
+			why = fmt.Sprintf("longest chain %d < limit %d but Resolve returned %v", L, st.MaxDepth, rerr)
+		default:
+			why = c.compareResolved(db, m, false)
+		}
+		if why != "" {
+			return []Finding{{"C01 outcome-depends-on-earlier-resolutions", fmt.Sprintf("step %d of %d resolutions in one process, order %s: %s; the same book and schedule on their own come out right, so state survives from earlier resolutions", i+1, len(c.Seq), describePlan(st.Plan), why)}}
+		}
+	}
+	return nil
+}
+
 func (c *CaseC01) Eval(ob *Obs) []Finding {
+	if len(c.Seq) > 0 {
+		return c.evalSeq(ob)
+	}
 	m := newRefModel(c.Book)
 	L := m.chainLen()
 	if L == -1 || L >= c.MaxDepth {
@@ -454,6 +530,7 @@ func (c *CaseC01) Eval(ob *Obs) []Finding {
 				return append(out, Finding{sig + " entry=" + entry, fmt.Sprintf("order %s: %s", describePlan(plan), msg)})
 			}
 			runPrelude(c.Prelude, text, c.MaxDepth, entry, plan, ob)
+			logCall(LibStep{Text: text, MaxDepth: c.MaxDepth, Entry: entry, Plan: plan, Book: c.Book})
 			rerr, pan := resolveUnder(db, c.MaxDepth, entry, plan, ob)
 			if len(m.order) >= 2 {
 				ob.nontrivial(fmt.Sprintf("%s/%s/%d", ch, entry, pi))
@@ -829,6 +906,9 @@ func genC11(thorough bool) func(t *rapid.T) Case {
 				bo.DeepChain = 14
 			}
 			bo.MaxRecipes = 14
+		}
+		if rapid.IntRange(0, 7).Draw(t, "wide") == 7 {
+			bo.MinRecipes, bo.MaxRecipes = 16, 40
 		}
 		c.Book = genBook(t, bo)
 		bigShape := rapid.IntRange(0, 3999).Draw(t, "big_shape")
